@@ -322,9 +322,12 @@ def stage_args(repo, run):
                         b = inner.right
                         while isinstance(b, ast.Name) and b.id in env2:
                             b = env2[b.id]
+                        comp = b.args[0] if isinstance(b, ast.Call) and b.args else None
+                        if isinstance(comp, ast.Name):
+                            from ..front import append_loop_as_listcomp
+                            comp = append_loop_as_listcomp(f2, comp.id)
                         if a in (K, "(%s)" % K) and isinstance(b, ast.Call) and fname(b) == "stack" and b.args and \
-                                isinstance(b.args[0], ast.ListComp) and any(k.arg == "axis" and _ci(k.value) == -1 for k in b.keywords):
-                            comp = b.args[0]
+                                isinstance(comp, ast.ListComp) and any(k.arg == "axis" and _ci(k.value) == -1 for k in b.keywords):
                             if comp.elt is c and len(comp.generators) == 1 and is_self_attr(comp.generators[0].iter, "tableau_intermediate"):
                                 okres = True
             run.judged(rid, "algebraic_system residual is K - stack([f(stage i) for rows], axis=-1)", ok=okres)
